@@ -97,6 +97,17 @@ class DownloadOutputManager:
             self._io_executor, self.get_io_write_task(fileobj, data, offset)
         )
 
+    def get_io_write_tasks(self, fileobj, data, offset):
+        """Get the IO write tasks to run immediately for the requested data
+
+        This is used when the data is written out directly instead of being
+        submitted to the IO executor. Managers that need to filter or defer
+        data before it can be written may return any number of tasks.
+
+        :returns: A list of IO tasks to run in order
+        """
+        return [self.get_io_write_task(fileobj, data, offset)]
+
     def get_io_write_task(self, fileobj, data, offset):
         """Get an IO write task for the requested set of data
 
@@ -239,6 +250,16 @@ class DownloadNonSeekableOutputManager(DownloadOutputManager):
                     fileobj,
                 )
                 super().queue_file_io_task(fileobj, data, offset)
+
+    def get_io_write_tasks(self, fileobj, data, offset):
+        # The stream cannot be positioned, so data that is delivered again
+        # after a retry must be dropped by the defer queue here as well.
+        with self._io_submit_lock:
+            writes = self._defer_queue.request_writes(offset, data)
+            return [
+                self.get_io_write_task(fileobj, write['data'], write['offset'])
+                for write in writes
+            ]
 
     def get_io_write_task(self, fileobj, data, offset):
         return IOStreamingWriteTask(
@@ -625,8 +646,11 @@ class ImmediatelyWriteIOGetObjectTask(GetObjectTask):
     """
 
     def _handle_io(self, download_output_manager, fileobj, chunk, index):
-        task = download_output_manager.get_io_write_task(fileobj, chunk, index)
-        task()
+        tasks = download_output_manager.get_io_write_tasks(
+            fileobj, chunk, index
+        )
+        for task in tasks:
+            task()
 
 
 class IOWriteTask(Task):
